@@ -163,7 +163,12 @@ class Subject:
 def perform(r, op):
     """Run one accessor on a real reader; returns a canonical, comparable value."""
     if op == "getTimes":
-        return ("times", times_ms(r.get_times()))
+        t = times_ms(r.get_times())
+        # the `times` property (the same instants as datetime objects) is read as well, every time: it must follow get_times()
+        tp = times_ms(np.array(r.times, dtype="datetime64[ms]"))
+        if tp != t:
+            return ("times", tp, "reader.times differs from get_times()")
+        return ("times", t)
     if op == "getLonLat":
         lon, lat = r.get_lonlat()
         return ("lonlat", dig(lon, lat), np.asarray(lon).shape)
